@@ -16,6 +16,11 @@ CHECKS = {
             'Every model of the stated finite space (1-3 potentials from a 27-entry library incl. custom/table/splined/multi-range/Python callables, all label arrangements, grid lattice, 4 routes) is tabulated by the implementation and every row of every block is compared with the reference; no sampling. This is the level that fits a pure, sequential formatter: the failure modes are positional (off-by-one grid, wrong sign, swapped key) and appear at small scope.',
             'Trusted: reference closed forms (docs), LAMMPS table syntax as encoded in mc/readers/pair.py, CPython/numpy/scipy. Real-valued parameters decided on lattices only.',
             'DESIGN.md 4/C01'),
+    'C02': (E1, 'exploration',
+            'bounded exhaustive enumeration of pair models x grids (nr multiple of 4) x 4 routes x both target spellings on the real code, fixed-width TABLE reader + reference model; every nr in 3..41 not divisible by 4 enumerated for the rejection rule; failed-write histories',
+            'Every case of the stated finite space is executed; header, record layout, every energy and every -r dV/dr value compared with the reference; rejection of every non-multiple-of-4 row count checked on all routes (exception class / configuration error / nothing written).',
+            'Trusted: reference closed forms, DL_POLY TABLE layout as encoded in mc/readers/pair.py. nr=4 (division by zero in delpot) belongs to C16.',
+            'DESIGN.md 4/C02'),
 }
 
 NOT_YET = 'check not built yet in this revision of /verif (bounded exhaustive exploration applies; see DESIGN.md section 4)'
